@@ -10,49 +10,50 @@ use vh_lite::{read_cases, drive, drive_group, quiet_panics, Out};
 
 mod tc_left__pari;
 mod tc_left__src2;
-mod tc_left__ren;
-mod tc_nonlin__to;
-mod tc_nonlin__strpar;
-mod mutual__gen;
-mod mutual__srcpar;
-mod scc_chain__ser;
-mod scc_chain__permpar;
-mod consts__par;
-mod repeated__permpar;
-mod three_dyn__topar;
-mod four_dyn__ser;
-mod conds__gen;
-mod conds__srcpar;
-mod count_up__ser;
-mod multi_head__to;
-mod facts__pari;
-mod facts__redecl;
-mod facts__str;
-mod opt_cols__gen;
-mod opt_cols__srcpar;
-mod same_gen__topar;
-mod not_reorderable__ser;
-mod not_reorderable__permpar;
-mod pre_join_rec__ren;
-mod two_inputs__mrt;
-mod two_inputs__runpar;
-mod two_inputs__strpar;
-mod ternary__perm2;
-mod bound_mix__pari;
-mod join_chain__ser;
-mod join_chain__u64;
-mod reach__to;
-mod lag_right__ser;
-mod lag_right__permpar;
-mod lag_left__topar;
-mod lag_mid__pari;
-mod lag_late_delta__ser;
-mod multi_head_rec__to;
-mod sp_dual__topar;
-mod sp_dual__redecl;
-mod sp_weighted__ser;
-mod longest_capped__to;
-mod set_reach__mrt;
+mod tc_left__perm2;
+mod tc_nonlin__pari;
+mod tc_nonlin__u64;
+mod mutual__mrt;
+mod mutual__init;
+mod mutual__u64;
+mod scc_chain__perm2;
+mod diamond__pari;
+mod repeated__perm2;
+mod three_dyn__pari;
+mod three_dyn__u64;
+mod conds__run;
+mod conds__redecl;
+mod expr_args__ser;
+mod multi_head__ser;
+mod multi_head__permpar;
+mod facts__src1;
+mod facts__perm1;
+mod opt_cols__par;
+mod opt_cols__srcto;
+mod cartesian__pari;
+mod same_gen__ren;
+mod not_reorderable__to;
+mod pre_join_rec__pari;
+mod two_inputs__par;
+mod two_inputs__src1;
+mod two_inputs__perm1;
+mod wild__par;
+mod ternary__permpar;
+mod bound_mix__perm2;
+mod join_chain__pari;
+mod cond_simple_join__ser;
+mod zero_arity__ser;
+mod lag_right__pari;
+mod lag_right__u64;
+mod lag_three__par;
+mod lag_mid__perm2;
+mod lag_late_delta__pari;
+mod multi_head_rec__exp;
+mod sp_dual__mrt;
+mod sp_dual__init;
+mod sp_weighted__par;
+mod longest_capped__topar;
+mod set_reach__gen;
 mod set_reach__runpar;
 mod cp__par;
 mod lex_lat__par;
@@ -60,101 +61,104 @@ mod lat_multi_improve__ser;
 mod lat_pre_join__to;
 mod lat_input__ser;
 mod lat_input__src0;
-mod count_paths__ser;
-mod count_paths__src0;
-mod neg_basic__ser;
-mod neg_basic__src0;
-mod neg_basic__perm1;
-mod agg_minmaxsum__pari;
-mod agg_lattice__pari;
-mod neg_rec_after__pari;
-mod agg_empty__pari;
-mod agg_const_args__ser;
-mod disj__ser;
-mod disj__src0;
-mod disj__perm1;
-mod disj_nested__pari;
-mod rep_expr__ser;
-mod multi_head_disj__exp;
-mod mac_basic__par;
-mod mac_basic__src1;
-mod mac_basic__exppar;
-mod mac_nested__pari;
-mod mac_disj__ser;
-mod stress_rel__ser;
-mod rnd_core_02__pari;
-mod rnd_core_05__par;
-mod rnd_core_08__ser;
-mod rnd_core_10__pari;
-mod rnd_core_13__par;
-mod rnd_core_16__ser;
-mod rnd_core_18__pari;
-mod rnd_core_21__par;
-mod rnd_core_24__ser;
-mod rnd_core_26__pari;
-mod rnd_core_29__par;
-mod rnd_agg_02__ser;
-mod rnd_agg_04__pari;
-mod rnd_agg_07__par;
-mod rnd_agg_10__ser;
-mod rnd_agg_12__pari;
-mod rnd_agg_15__par;
-mod rnd_prec_02__par;
-mod rnd_prec_03__topar;
-mod rnd_prec_05__pari;
-mod rnd_prec_07__ser;
-mod rnd_prec_08__to;
-mod rnd_prea_03__ser;
-mod rnd_prea_05__pari;
-mod rnd_prea_08__par;
+mod lat_input__srcpar;
+mod count_paths__gen;
+mod count_paths__runpar;
+mod neg_basic__mrt;
+mod neg_basic__init;
+mod neg_basic__exppar;
+mod agg_depth__topar;
+mod agg_user__pari;
+mod agg_bound_mix__pari;
+mod agg_empty_rel__pari;
+mod agg_pre_join__ser;
+mod disj__run;
+mod disj__redecl;
+mod disj__exp;
+mod pat_args__par;
+mod rep_expr__exppar;
+mod neg_in_disj__pari;
+mod mac_basic__run;
+mod mac_basic__redecl;
+mod mac_capture__pari;
+mod mac_gensym_disj__ser;
+mod mac_local_names__exp;
+mod mac_disj__par;
+mod stress_rel__par;
+mod rnd_core_03__ser;
+mod rnd_core_05__pari;
+mod rnd_core_08__par;
+mod rnd_core_11__ser;
+mod rnd_core_13__pari;
+mod rnd_core_16__par;
+mod rnd_core_19__ser;
+mod rnd_core_21__pari;
+mod rnd_core_24__par;
+mod rnd_core_27__ser;
+mod rnd_core_29__pari;
+mod rnd_agg_02__par;
+mod rnd_agg_05__ser;
+mod rnd_agg_07__pari;
+mod rnd_agg_10__par;
+mod rnd_agg_13__ser;
+mod rnd_agg_15__pari;
+mod rnd_prec_02__pari;
+mod rnd_prec_04__ser;
+mod rnd_prec_05__to;
+mod rnd_prec_07__par;
+mod rnd_prec_08__topar;
+mod rnd_prea_03__par;
+mod rnd_prea_06__ser;
+mod rnd_prea_08__pari;
 
 fn lookup(name: &str) -> fn() -> Box<dyn Driven> {
    match name {
       "tc_left__pari" => tc_left__pari::make,
       "tc_left__src2" => tc_left__src2::make,
-      "tc_left__ren" => tc_left__ren::make,
-      "tc_nonlin__to" => tc_nonlin__to::make,
-      "tc_nonlin__strpar" => tc_nonlin__strpar::make,
-      "mutual__gen" => mutual__gen::make,
-      "mutual__srcpar" => mutual__srcpar::make,
-      "scc_chain__ser" => scc_chain__ser::make,
-      "scc_chain__permpar" => scc_chain__permpar::make,
-      "consts__par" => consts__par::make,
-      "repeated__permpar" => repeated__permpar::make,
-      "three_dyn__topar" => three_dyn__topar::make,
-      "four_dyn__ser" => four_dyn__ser::make,
-      "conds__gen" => conds__gen::make,
-      "conds__srcpar" => conds__srcpar::make,
-      "count_up__ser" => count_up__ser::make,
-      "multi_head__to" => multi_head__to::make,
-      "facts__pari" => facts__pari::make,
-      "facts__redecl" => facts__redecl::make,
-      "facts__str" => facts__str::make,
-      "opt_cols__gen" => opt_cols__gen::make,
-      "opt_cols__srcpar" => opt_cols__srcpar::make,
-      "same_gen__topar" => same_gen__topar::make,
-      "not_reorderable__ser" => not_reorderable__ser::make,
-      "not_reorderable__permpar" => not_reorderable__permpar::make,
-      "pre_join_rec__ren" => pre_join_rec__ren::make,
-      "two_inputs__mrt" => two_inputs__mrt::make,
-      "two_inputs__runpar" => two_inputs__runpar::make,
-      "two_inputs__strpar" => two_inputs__strpar::make,
-      "ternary__perm2" => ternary__perm2::make,
-      "bound_mix__pari" => bound_mix__pari::make,
-      "join_chain__ser" => join_chain__ser::make,
-      "join_chain__u64" => join_chain__u64::make,
-      "reach__to" => reach__to::make,
-      "lag_right__ser" => lag_right__ser::make,
-      "lag_right__permpar" => lag_right__permpar::make,
-      "lag_left__topar" => lag_left__topar::make,
-      "lag_mid__pari" => lag_mid__pari::make,
-      "lag_late_delta__ser" => lag_late_delta__ser::make,
-      "multi_head_rec__to" => multi_head_rec__to::make,
-      "sp_dual__topar" => sp_dual__topar::make,
-      "sp_dual__redecl" => sp_dual__redecl::make,
-      "sp_weighted__ser" => sp_weighted__ser::make,
-      "longest_capped__to" => longest_capped__to::make,
-      "set_reach__mrt" => set_reach__mrt::make,
+      "tc_left__perm2" => tc_left__perm2::make,
+      "tc_nonlin__pari" => tc_nonlin__pari::make,
+      "tc_nonlin__u64" => tc_nonlin__u64::make,
+      "mutual__mrt" => mutual__mrt::make,
+      "mutual__init" => mutual__init::make,
+      "mutual__u64" => mutual__u64::make,
+      "scc_chain__perm2" => scc_chain__perm2::make,
+      "diamond__pari" => diamond__pari::make,
+      "repeated__perm2" => repeated__perm2::make,
+      "three_dyn__pari" => three_dyn__pari::make,
+      "three_dyn__u64" => three_dyn__u64::make,
+      "conds__run" => conds__run::make,
+      "conds__redecl" => conds__redecl::make,
+      "expr_args__ser" => expr_args__ser::make,
+      "multi_head__ser" => multi_head__ser::make,
+      "multi_head__permpar" => multi_head__permpar::make,
+      "facts__src1" => facts__src1::make,
+      "facts__perm1" => facts__perm1::make,
+      "opt_cols__par" => opt_cols__par::make,
+      "opt_cols__srcto" => opt_cols__srcto::make,
+      "cartesian__pari" => cartesian__pari::make,
+      "same_gen__ren" => same_gen__ren::make,
+      "not_reorderable__to" => not_reorderable__to::make,
+      "pre_join_rec__pari" => pre_join_rec__pari::make,
+      "two_inputs__par" => two_inputs__par::make,
+      "two_inputs__src1" => two_inputs__src1::make,
+      "two_inputs__perm1" => two_inputs__perm1::make,
+      "wild__par" => wild__par::make,
+      "ternary__permpar" => ternary__permpar::make,
+      "bound_mix__perm2" => bound_mix__perm2::make,
+      "join_chain__pari" => join_chain__pari::make,
+      "cond_simple_join__ser" => cond_simple_join__ser::make,
+      "zero_arity__ser" => zero_arity__ser::make,
+      "lag_right__pari" => lag_right__pari::make,
+      "lag_right__u64" => lag_right__u64::make,
+      "lag_three__par" => lag_three__par::make,
+      "lag_mid__perm2" => lag_mid__perm2::make,
+      "lag_late_delta__pari" => lag_late_delta__pari::make,
+      "multi_head_rec__exp" => multi_head_rec__exp::make,
+      "sp_dual__mrt" => sp_dual__mrt::make,
+      "sp_dual__init" => sp_dual__init::make,
+      "sp_weighted__par" => sp_weighted__par::make,
+      "longest_capped__topar" => longest_capped__topar::make,
+      "set_reach__gen" => set_reach__gen::make,
       "set_reach__runpar" => set_reach__runpar::make,
       "cp__par" => cp__par::make,
       "lex_lat__par" => lex_lat__par::make,
@@ -162,53 +166,55 @@ fn lookup(name: &str) -> fn() -> Box<dyn Driven> {
       "lat_pre_join__to" => lat_pre_join__to::make,
       "lat_input__ser" => lat_input__ser::make,
       "lat_input__src0" => lat_input__src0::make,
-      "count_paths__ser" => count_paths__ser::make,
-      "count_paths__src0" => count_paths__src0::make,
-      "neg_basic__ser" => neg_basic__ser::make,
-      "neg_basic__src0" => neg_basic__src0::make,
-      "neg_basic__perm1" => neg_basic__perm1::make,
-      "agg_minmaxsum__pari" => agg_minmaxsum__pari::make,
-      "agg_lattice__pari" => agg_lattice__pari::make,
-      "neg_rec_after__pari" => neg_rec_after__pari::make,
-      "agg_empty__pari" => agg_empty__pari::make,
-      "agg_const_args__ser" => agg_const_args__ser::make,
-      "disj__ser" => disj__ser::make,
-      "disj__src0" => disj__src0::make,
-      "disj__perm1" => disj__perm1::make,
-      "disj_nested__pari" => disj_nested__pari::make,
-      "rep_expr__ser" => rep_expr__ser::make,
-      "multi_head_disj__exp" => multi_head_disj__exp::make,
-      "mac_basic__par" => mac_basic__par::make,
-      "mac_basic__src1" => mac_basic__src1::make,
-      "mac_basic__exppar" => mac_basic__exppar::make,
-      "mac_nested__pari" => mac_nested__pari::make,
-      "mac_disj__ser" => mac_disj__ser::make,
-      "stress_rel__ser" => stress_rel__ser::make,
-      "rnd_core_02__pari" => rnd_core_02__pari::make,
-      "rnd_core_05__par" => rnd_core_05__par::make,
-      "rnd_core_08__ser" => rnd_core_08__ser::make,
-      "rnd_core_10__pari" => rnd_core_10__pari::make,
-      "rnd_core_13__par" => rnd_core_13__par::make,
-      "rnd_core_16__ser" => rnd_core_16__ser::make,
-      "rnd_core_18__pari" => rnd_core_18__pari::make,
-      "rnd_core_21__par" => rnd_core_21__par::make,
-      "rnd_core_24__ser" => rnd_core_24__ser::make,
-      "rnd_core_26__pari" => rnd_core_26__pari::make,
-      "rnd_core_29__par" => rnd_core_29__par::make,
-      "rnd_agg_02__ser" => rnd_agg_02__ser::make,
-      "rnd_agg_04__pari" => rnd_agg_04__pari::make,
-      "rnd_agg_07__par" => rnd_agg_07__par::make,
-      "rnd_agg_10__ser" => rnd_agg_10__ser::make,
-      "rnd_agg_12__pari" => rnd_agg_12__pari::make,
-      "rnd_agg_15__par" => rnd_agg_15__par::make,
-      "rnd_prec_02__par" => rnd_prec_02__par::make,
-      "rnd_prec_03__topar" => rnd_prec_03__topar::make,
-      "rnd_prec_05__pari" => rnd_prec_05__pari::make,
-      "rnd_prec_07__ser" => rnd_prec_07__ser::make,
-      "rnd_prec_08__to" => rnd_prec_08__to::make,
-      "rnd_prea_03__ser" => rnd_prea_03__ser::make,
-      "rnd_prea_05__pari" => rnd_prea_05__pari::make,
-      "rnd_prea_08__par" => rnd_prea_08__par::make,
+      "lat_input__srcpar" => lat_input__srcpar::make,
+      "count_paths__gen" => count_paths__gen::make,
+      "count_paths__runpar" => count_paths__runpar::make,
+      "neg_basic__mrt" => neg_basic__mrt::make,
+      "neg_basic__init" => neg_basic__init::make,
+      "neg_basic__exppar" => neg_basic__exppar::make,
+      "agg_depth__topar" => agg_depth__topar::make,
+      "agg_user__pari" => agg_user__pari::make,
+      "agg_bound_mix__pari" => agg_bound_mix__pari::make,
+      "agg_empty_rel__pari" => agg_empty_rel__pari::make,
+      "agg_pre_join__ser" => agg_pre_join__ser::make,
+      "disj__run" => disj__run::make,
+      "disj__redecl" => disj__redecl::make,
+      "disj__exp" => disj__exp::make,
+      "pat_args__par" => pat_args__par::make,
+      "rep_expr__exppar" => rep_expr__exppar::make,
+      "neg_in_disj__pari" => neg_in_disj__pari::make,
+      "mac_basic__run" => mac_basic__run::make,
+      "mac_basic__redecl" => mac_basic__redecl::make,
+      "mac_capture__pari" => mac_capture__pari::make,
+      "mac_gensym_disj__ser" => mac_gensym_disj__ser::make,
+      "mac_local_names__exp" => mac_local_names__exp::make,
+      "mac_disj__par" => mac_disj__par::make,
+      "stress_rel__par" => stress_rel__par::make,
+      "rnd_core_03__ser" => rnd_core_03__ser::make,
+      "rnd_core_05__pari" => rnd_core_05__pari::make,
+      "rnd_core_08__par" => rnd_core_08__par::make,
+      "rnd_core_11__ser" => rnd_core_11__ser::make,
+      "rnd_core_13__pari" => rnd_core_13__pari::make,
+      "rnd_core_16__par" => rnd_core_16__par::make,
+      "rnd_core_19__ser" => rnd_core_19__ser::make,
+      "rnd_core_21__pari" => rnd_core_21__pari::make,
+      "rnd_core_24__par" => rnd_core_24__par::make,
+      "rnd_core_27__ser" => rnd_core_27__ser::make,
+      "rnd_core_29__pari" => rnd_core_29__pari::make,
+      "rnd_agg_02__par" => rnd_agg_02__par::make,
+      "rnd_agg_05__ser" => rnd_agg_05__ser::make,
+      "rnd_agg_07__pari" => rnd_agg_07__pari::make,
+      "rnd_agg_10__par" => rnd_agg_10__par::make,
+      "rnd_agg_13__ser" => rnd_agg_13__ser::make,
+      "rnd_agg_15__pari" => rnd_agg_15__pari::make,
+      "rnd_prec_02__pari" => rnd_prec_02__pari::make,
+      "rnd_prec_04__ser" => rnd_prec_04__ser::make,
+      "rnd_prec_05__to" => rnd_prec_05__to::make,
+      "rnd_prec_07__par" => rnd_prec_07__par::make,
+      "rnd_prec_08__topar" => rnd_prec_08__topar::make,
+      "rnd_prea_03__par" => rnd_prea_03__par::make,
+      "rnd_prea_06__ser" => rnd_prea_06__ser::make,
+      "rnd_prea_08__pari" => rnd_prea_08__pari::make,
       _ => panic!("no such program variant in this shard: {}", name),
    }
 }
